@@ -1,16 +1,16 @@
 SPECIFICATION Spec
 CONSTANTS
-  Writers = {1, 2, 3}
+  Writers = {1, 2}
   Readers = {5}
   NTxn = 1
-  NReads = 1
+  NReads = 2
   MCHows = {"commit", "rollback"}
-  Plans <- MCPlansLive
+  Plans <- MCPlansCommit
   RPlans <- MCRPlans
   RModes <- MCRModes
-  MCRModeSet = {"latest"}
+  MCRModeSet = {"byid", "byinit"}
   InitVid = 2
-  Policers = {}
+  Policers = {7}
   PPlans <- MCPPlans
 PROPERTY AbsSpec
 PROPERTY AbsNoCuts
